@@ -118,6 +118,10 @@ def discharge(facts, tn, f, bi, t, guard_rows):
         return "measure", "constant operands"
     a = ops[0]
     b = ops[1] if len(ops) > 1 else None
+    if t["msg"] in ("DivisionByZero", "RemainderByZero"):
+        ce = sy.operand(t["cond"])
+        if ce[0] == "bin" and ce[1] == "Eq" and ce[3] == ("c", 0) and ce[2][0] == "c" and ce[2][1] != 0:
+            return "const-divisor", "division by the non-zero constant %d" % ce[2][1]
     if t["msg"] in ("DivisionByZero", "RemainderByZero") and any(tainted):
         return None, "division by a declared number"
     if op in ("Shl", "Shr"):
